@@ -30,6 +30,10 @@ func runC15(c *Ctx) {
 	if forge == nil || initH == nil || seal == nil || sel == nil || lim == nil {
 		return
 	}
+	// the aggregate commit the generator puts into its header is the one GetAggregateCommit
+	// assembles: its height stays within the window the node's own verification accepts (not
+	// beyond min(next parameter change − 1, precommitted height)) — the rule of C06.R6
+	c.MinInstances("C15.R6 own-commit-window", c.borrowRule(runC06, "C06", "R6 own-commit-window", "C15.R6 own-commit-window", nil), 1)
 	const GI = "generator.GeneratorInfo"
 	const H = "blockchain.BlockHeader"
 
